@@ -45,6 +45,9 @@ func (fx *fnExec) call(in ssa.Instruction, cc *ssa.CallCommon, st *State) Val {
 	if fv.Clo != nil {
 		return fx.callStatic(fv.Clo.Fn, args, fv.Clo.Bindings, st, pos, rt)
 	}
+	if fv.Alts != nil {
+		return fx.callAlts(fv, args, st, pos, rt)
+	}
 	dname := dynCalleeName(cc.Value)
 	fx.dynCallHooks(dname, args, st, pos)
 	if fx.c != nil {
